@@ -185,10 +185,13 @@ where
     Built { bases, scalars, exponent, nontrivial, classes }
 }
 
-fn expect<G: Grp>(what: &str, got: &G::Proj, want: &Pt<G::F>) -> Result<(), String> {
+fn expect<G: Ops>(what: &str, got: &G::Proj, want: &Pt<G::F>) -> Result<(), String> {
     let g = proj_m::<G>(got);
     if &g != want {
         return Err(format!("{} {}: crate gives {} but sum [k_i]P_i = {}", G::NAME, what, pt_brief(&g), pt_brief(want)));
+    }
+    if !cr("==", || G::op_eq(got, &proj_c::<G>(want)))? {
+        return Err(format!("{} {}: the result is {} but the crate's == says it differs from that point built from its coordinates", G::NAME, what, pt_brief(want)));
     }
     Ok(())
 }
